@@ -796,3 +796,126 @@ pub fn harnesses_long() -> Vec<H> {
     vec![H { name: "long_histories_full", props: &["C01", "C02", "C08", "C09", "C10"], nargs: 13, pre: pre_long, doms: doms_long, run: run_long, panic_ok: false,
         bound: "13 compositions; seeded random histories of 12 operations (push of a pool value, clear, reserve_items+reserve_regions, clone, merge_regions) mirrored on a twin; all issued indices re-read after every operation; sampled, not exhaustive (thorough tier)", kani: false }]
 }
+
+// ---------------------------------------------------------------------------------------------------- C17: allocator calls
+/// Push a pool value without the harness itself allocating (static inputs only).
+trait AllocSubject: Region {
+    const STORAGES: usize;
+    fn put_static(&mut self, k: u64);
+    fn reserve_static(&mut self, ks: &[u64]);
+    /// elements appended to the largest storage by one push of value k (upper bound)
+    fn grow(k: u64) -> usize;
+}
+macro_rules! alloc_subject {
+    ($ty:ty, $storages:expr, $put:expr, $reserve:expr, $grow:expr) => {
+        impl AllocSubject for $ty {
+            const STORAGES: usize = $storages;
+            fn put_static(&mut self, k: u64) {
+                let f: fn(&mut $ty, u64) = $put;
+                f(self, k)
+            }
+            fn reserve_static(&mut self, ks: &[u64]) {
+                let f: fn(&mut $ty, &[u64]) = $reserve;
+                f(self, ks)
+            }
+            fn grow(k: u64) -> usize {
+                let f: fn(u64) -> usize = $grow;
+                f(k)
+            }
+        }
+    };
+}
+alloc_subject!(OwnedRegion<u8>, 1, |r, k| { let _ = r.push(BYTES[k as usize % 4]); }, |r, ks| r.reserve_items(ks.iter().map(|k| BYTES[*k as usize % 4])), |k| BYTES[k as usize % 4].len());
+alloc_subject!(StringRegion, 1, |r, k| { let _ = r.push(string(k)); }, |r, ks| r.reserve_items(ks.iter().map(|k| string(*k))), |k| string(k).len());
+alloc_subject!(SliceRegion<MirrorRegion<u8>>, 1, |r, k| { let _ = r.push(BYTES[k as usize % 4]); }, |r, ks| r.reserve_items(ks.iter().map(|k| BYTES[*k as usize % 4])), |k| BYTES[k as usize % 4].len());
+alloc_subject!(SliceRegion<OwnedRegion<u8>>, 2, |r, k| { let _ = r.push(NESTED[k as usize % 4]); }, |_r, _ks| {}, |k| NESTED[k as usize % 4].iter().map(|x| x.len()).sum::<usize>().max(NESTED[k as usize % 4].len()));
+alloc_subject!(OptionRegion<OwnedRegion<u8>>, 1, |r, k| { let _ = r.push(OPTS[k as usize % 4]); }, |r, ks| r.reserve_items(ks.iter().map(|k| OPTS[*k as usize % 4])), |k| OPTS[k as usize % 4].map_or(0, |x| x.len()));
+alloc_subject!(ResultRegion<OwnedRegion<u8>, OwnedRegion<u8>>, 2, |r, k| { let _ = r.push(RESS[k as usize % 4]); }, |r, ks| r.reserve_items(ks.iter().map(|k| RESS[*k as usize % 4])), |k| match RESS[k as usize % 4] { Ok(x) | Err(x) => x.len() });
+alloc_subject!(TupleABRegion<OwnedRegion<u8>, StringRegion>, 2, |r, k| { let _ = r.push(TUPS[k as usize % 4]); }, |_r, _ks| {}, |k| TUPS[k as usize % 4].0.len().max(TUPS[k as usize % 4].1.len()));
+alloc_subject!(Vec<u8>, 1, |r, k| { let _ = <Vec<u8> as Push<u8>>::push(r, k as u8); }, |r, ks| r.reserve_items(ks.iter()), |_k| 1);
+
+#[cfg(not(kani))]
+fn alloc_body<S: AllocSubject>(v: &[u64]) {
+    let n = 1usize << v[1];
+    let mode = v[2];
+    let pattern = [v[3], v[4], v[5]];
+    let val = |i: usize| pattern[i % 3];
+    if mode == 0 {
+        // without pre-sizing: O(log n) allocator calls per internal storage, never one per item
+        let mut r = S::default();
+        let before = crate::alloc_count::calls();
+        let mut elems = 1usize;
+        for i in 0..n {
+            r.put_static(val(i));
+            elems += S::grow(val(i));
+        }
+        let calls = crate::alloc_count::calls() - before;
+        let log = (usize::BITS - elems.leading_zeros()) as usize;
+        vassert!(calls <= S::STORAGES * (log + 2), "VF:alloc.more_than_logarithmic_allocator_calls");
+        vcover!(calls > 0, "growth happened");
+    } else {
+        // after pre-sizing (reserve_items on an empty or populated region / merge_regions): no allocator call at all
+        let batch: Vec<u64> = (0..n.min(64)).map(val).collect();
+        let mut r = S::default();
+        if v[5] == 3 && mode != 3 {
+            // already populated target (fill it to its capacity so that spare room cannot hide a short reservation)
+            for i in 0..8 {
+                r.put_static(val(i));
+            }
+        }
+        let mut src = S::default();
+        for k in &batch {
+            src.put_static(*k);
+        }
+        if mode == 3 {
+            r = S::merge_regions(std::iter::once(&src));
+        } else if mode == 4 {
+            r.reserve_regions(std::iter::once(&src));
+        } else {
+            r.reserve_static(&batch);
+            if S::STORAGES == 2 && !S::default_reserve_is_complete() {
+                return;
+            }
+        }
+        let before = crate::alloc_count::calls();
+        for k in &batch {
+            r.put_static(*k);
+        }
+        let calls = crate::alloc_count::calls() - before;
+        vassert!(calls == 0, "VF:alloc.allocator_called_after_presizing");
+    }
+}
+trait ReserveComplete {
+    fn default_reserve_is_complete() -> bool;
+}
+impl<S: AllocSubject> ReserveComplete for S {
+    fn default_reserve_is_complete() -> bool {
+        // subjects whose reserve_static is a no-op in this harness (nested / tuple forms need owned temporaries)
+        !(std::any::type_name::<S>().contains("SliceRegion<flatcontainer::impls::slice_owned::OwnedRegion") || std::any::type_name::<S>().contains("Tuple"))
+    }
+}
+#[cfg(kani)]
+fn alloc_body<S: AllocSubject>(_v: &[u64]) {}
+fn run_alloc(v: &[u64]) {
+    match v[0] {
+        0 => alloc_body::<OwnedRegion<u8>>(v),
+        1 => alloc_body::<StringRegion>(v),
+        2 => alloc_body::<SliceRegion<MirrorRegion<u8>>>(v),
+        3 => alloc_body::<SliceRegion<OwnedRegion<u8>>>(v),
+        4 => alloc_body::<OptionRegion<OwnedRegion<u8>>>(v),
+        5 => alloc_body::<ResultRegion<OwnedRegion<u8>, OwnedRegion<u8>>>(v),
+        6 => alloc_body::<TupleABRegion<OwnedRegion<u8>, StringRegion>>(v),
+        _ => alloc_body::<Vec<u8>>(v),
+    }
+}
+fn pre_alloc(v: &[u64]) -> bool {
+    v[0] < 8 && (6..=14).contains(&v[1]) && v[2] < 5 && v[2] != 2 && v[3] < 6 && v[4] < 6 && v[5] < 6
+}
+fn doms_alloc() -> Vec<Vec<u64>> {
+    vec![range(8), vec![6, 8, 10, 12, 14], range(5), range(4), vec![1, 2], vec![0, 3]]
+}
+
+pub fn harnesses_alloc() -> Vec<H> {
+    vec![H { name: "alloc_discipline", props: &["C17"], nargs: 6, pre: pre_alloc, doms: doms_alloc, run: run_alloc, panic_ok: false,
+        bound: "8 vector-backed structural regions, n = 2^6 .. 2^14 items from a 3-value repeating pattern over static inputs, counting global allocator: without pre-sizing at most storages x (log2(elements)+2) allocator calls; after reserve_items (empty or populated target) / reserve_regions / merge_regions of up to 64 announced items, zero allocator calls while pushing them", kani: false }]
+}
